@@ -46,6 +46,7 @@ class VOpts:
         in_decl='scalar',        # scalar | bus_desc | bus_asc | bus_mixed | bus_off (descending, lowest index 2)
         wire_decl='scalar',      # scalar | bus (internal wires are bits of one bus)
         out_ref='bit',           # bit | whole (a 1-bit output bus is referred to by its bare name)
+        in_ref='bit',            # bit | whole | whole_off (a 1-bit input bus [0:0] / [2:2] is referred to by its bare name)
         out_decl='scalar',       # scalar | bus_desc | bus_asc
         port_order=0,            # index into permutations of the header port list
         stmt_order='decl_first', # decl_first | inst_first | interleaved | inst_reversed
@@ -62,7 +63,7 @@ class VOpts:
         concat_assign=False,     # drive output bus through one concatenation assign
     )
     CHOICES = dict(
-        in_decl=['bus_desc', 'bus_asc', 'bus_mixed', 'bus_off'], wire_decl=['bus'], out_ref=['whole'], out_decl=['bus_desc', 'bus_asc'], port_order=[1, 2, 3],
+        in_decl=['bus_desc', 'bus_asc', 'bus_mixed', 'bus_off'], wire_decl=['bus'], out_ref=['whole'], in_ref=['whole', 'whole_off'], out_decl=['bus_desc', 'bus_asc'], port_order=[1, 2, 3],
         stmt_order=['inst_first', 'interleaved', 'inst_reversed'], pin_order=['rev', 'out_first'], out_style=['assign'],
         escape=[True], noise=['line_comment', 'block_comment', 'star_comment', 'attribute', 'star_attribute', 'tabs_newlines', 'crlf'], redeclare=[True],
         const_style=['bus', 'bus4h', 'bus3d'], const_spelling=['h', 'd', 'B', 'H', 'D'], open_pin=['empty'], assign_order=['rev'], alias_chain=[True, 'rev'], concat_assign=[True, 'vec_rhs', 'vec_lhs'],
@@ -93,12 +94,15 @@ def verilog(nl, cmap, dffcell, opts, const_gate_inputs=None):
     Inputs are named i<k> (or bits of bus i), outputs o<j> (or bits of bus o), a clock input 'clk' if there are states.
     A None operand is an open pin; an operand 'c0'/'c1' is a constant."""
     nI, nO = nl.n_in, len(nl.outs)
+    if opts.in_ref != 'bit' and opts.in_decl in ('scalar', 'bus_mixed'):
+        opts = VOpts(**dict(opts.__dict__, in_decl='bus_off' if opts.in_ref == 'whole_off' else 'bus_desc'))
     if (opts.concat_assign or opts.out_ref == 'whole') and opts.out_decl == 'scalar':
         # these two deviations only exist for an output bus: they imply the (descending) bus declaration
         opts = VOpts(**dict(opts.__dict__, out_decl='bus_desc'))
     esc = (lambda s: '\\' + s + '.x ') if opts.escape else (lambda s: s)
     # ---- names
-    def in_name(k):
+    def in_name(k, port=False):
+        if opts.in_ref != 'bit' and nI == 1 and not port: return 'i'          # the whole one-bit vector
         if opts.in_decl == 'scalar' or (opts.in_decl == 'bus_mixed' and k == nI - 1 and nI > 1): return f'i{k}'
         return f'i[{k + 2}]' if opts.in_decl == 'bus_off' else f'i[{k}]'
     whole = opts.out_ref == 'whole' and nO == 1 and opts.out_decl != 'scalar'
@@ -242,7 +246,7 @@ def verilog(nl, cmap, dffcell, opts, const_gate_inputs=None):
             body += [y for y in x if y is not None]
     text = f'module top ({", ".join(header)});\n' + '\n'.join('  ' + b for b in body) + '\nendmodule\n'
     text = add_noise(text, opts.noise)
-    return text, expected_ports, inst_names, [in_name(k) for k in range(nI)], [('o[0]' if whole else out_name(j)) for j in range(nO)]
+    return text, expected_ports, inst_names, [in_name(k, port=True) for k in range(nI)], [('o[0]' if whole else out_name(j)) for j in range(nO)]
 
 
 def add_noise(text, noise):
